@@ -116,7 +116,11 @@ pub fn eintr_storm_cases(dir: &std::path::Path, rng: &mut Rng, rep: &mut Report,
                     let mut f = std::fs::OpenOptions::new().write(true).open(&fifo).expect("open fifo for writing");
                     for chunk in payload.chunks(40_000) {
                         std::thread::sleep(std::time::Duration::from_millis(12));
-                        f.write_all(chunk).expect("fifo write");
+                        // a reader that gives up early closes its end (EPIPE here): the verdict
+                        // comes from the hash, not from this write
+                        if f.write_all(chunk).is_err() {
+                            break;
+                        }
                     }
                 });
                 s.spawn(|| {
